@@ -49,8 +49,138 @@ def compare_sig(rep, key, exp, orig, tm, kind, dp):
     return fn_params
 
 
+# ---- script-enumerated signature matrix -------------------------------------------------------------
+
+DEPS = [
+    ("gref", "<D{G}>", "deps: &D", ""),                    # named generic, by reference
+    ("gval", "<D: Clone{G}>", "deps: D", ""),              # named generic, by value
+    ("gbound", "<D: Dep{G}>", "deps: &D", ""),             # inline bound
+    ("gwhere", "<D{G}>", "deps: &D", "D: Dep"),            # where-clause bound
+    ("iref", "<{G0}>", "deps: &impl Dep", ""),             # impl Trait
+    ("conc", "<{G0}>", "deps: &App", ""),                  # concrete
+    ("nodeps", "<{G0}>", "", ""),                          # no_deps
+]
+PARAMS = [
+    ("p0", []),
+    ("p1", [("a", "u8")]),
+    ("p2", [("a", "u8"), ("s", "&str")]),
+    ("p3", [("s", "&str"), ("v", "&mut Vec<u8>"), ("t", "String")]),
+]
+GENERICS = [
+    ("g0", "", [], ""),
+    ("gt", "T: Clone + Send", [("g", "T")], ""),
+    ("glt", "'x", [("x", "&'x [u8]")], ""),
+    ("gconst", "const N: usize", [("arr", "[u8; N]")], ""),
+    ("gtw", "T", [("g", "T")], "T: Clone + Send"),
+]
+RETS = [("runit", "", "()"), ("rowned", "u64", "0"), ("rborrow", None, None)]
+QUALS = ["", "async ", "unsafe ", "pub(crate) ", "async unsafe ", "const ", "const unsafe ", "unsafe extern \"C\" ", "pub extern \"C\" "]
+
+
+def matrix_cases():
+    i = 0
+    for dk, gtmpl, dparam, dwhere in DEPS:
+        for pk, params in PARAMS:
+            for gk, gdecl, gparams, gwhere in GENERICS:
+                for rk, rty, rexpr in RETS:
+                    for q in QUALS:
+                        allp = list(params) + list(gparams)
+                        if q.startswith("const") and (pk == "p3" or gk in ("gt", "gtw") or dk == "gval"):
+                            continue  # values with destructors cannot be dropped in a const fn
+                        if rk == "rborrow":
+                            if gk == "glt":
+                                rty, rexpr = "&'x [u8]", "x"
+                            else:
+                                continue
+                        # generics list: lifetimes first, then deps, then the rest
+                        lts = [gdecl] if gdecl.startswith("'") else []
+                        rest = [gdecl] if gdecl and not gdecl.startswith("'") else []
+                        inner = gtmpl
+                        if "{G}" in inner:
+                            core = inner.strip("<>").replace("{G}", "")
+                            parts = lts + [core] + rest
+                        else:
+                            parts = lts + rest
+                        gens = "<" + ", ".join(parts) + ">" if parts else ""
+                        plist = ", ".join(([dparam] if dparam else []) + ["%s: %s" % p for p in allp])
+                        wh = ", ".join(x for x in (dwhere, gwhere) if x)
+                        attr = "#[entrait(Tr%s)]" % (", no_deps" if dk == "nodeps" else "")
+                        body = rexpr if rexpr not in (None, "()") else ""
+                        sig = "%sfn f%d%s(%s)%s%s { %s }" % (q, i, gens, plist, " -> %s" % rty if rty else "", " where " + wh if wh else "", body)
+                        yield i, (dk, pk, gk, rk, q.strip() or "plain"), "#[cfg(not(skip_m%d))] pub mod m%d { use super::*; %s %s }" % (i, i, attr, sig)
+                        i += 1
+
+
+MATRIX_HEADER = """#![allow(dead_code, unused_variables, unused_mut, non_snake_case)]
+use entrait::*;
+pub trait Dep {}
+#[derive(Clone)]
+pub struct App;
+impl Dep for App {}
+impl Dep for Impl<App> {}
+"""
+
+
+def run_matrix(rep, tier):
+    import os, re, shutil
+    from ..common import CACHE, REPO
+    from ..facts import build_with_skips
+    from ..model import Crate
+    from ..wrules import check_fnmod_delegation
+    cases = list(matrix_cases())
+    if tier == "quick":
+        cases = [c for k, c in enumerate(cases) if k % 6 == 0]
+    CH = 400
+    for ci in range(0, len(cases), CH):
+        part = cases[ci:ci + CH]
+        d = os.path.join(CACHE, "gen", "c03_matrix_%s_%d" % (tier, ci // CH))
+        os.makedirs(os.path.join(d, "src"), exist_ok=True)
+        with open(os.path.join(d, "Cargo.toml"), "w") as f:
+            f.write('[package]\nname = "wit_c03m"\nversion = "0.0.0"\nedition = "2021"\n\n[dependencies]\nentrait = { path = "%s" }\n\n[workspace]\n' % REPO)
+        shutil.copy(os.path.join(REPO, "Cargo.lock"), os.path.join(d, "Cargo.lock"))
+        lines = MATRIX_HEADER.rstrip("\n").split("\n")
+        where = {}
+        for idx, key, src in part:
+            lines.append(src)
+            where[len(lines)] = idx
+        with open(os.path.join(d, "src", "lib.rs"), "w") as f:
+            f.write("\n".join(lines) + "\n")
+
+        def attribute(span, where=where):
+            i = where.get(span["line"])
+            return "m%d" % i if i is not None else None
+        facts, failures, wall = build_with_skips(d, "wit_c03m", attribute=attribute, max_rounds=5)
+        crate = Crate(facts, d)
+        keys = {idx: key for idx, key, src in part}
+        for idx, key, src in part:
+            rep.count("matrix_signatures")
+            if "m%d" % idx in failures:
+                dg = failures["m%d" % idx][0]
+                rep.add("W-MATRIX", "matrix %s compile" % "/".join(key),
+                        "signature class %s does not expand to compiling code: %s %s — e.g. `%s`"
+                        % ("/".join(key), dg.get("code") or "", dg["message"][:140], re.sub(r"^.*?use super::\*; ", "", src)[:160]))
+        for exp in crate.expansions:
+            m = re.search(r"::m(\d+)$", exp.module or "")
+            if not m or exp.mode != "fn":
+                continue
+            key = keys.get(int(m.group(1)))
+            v = FnModView(crate, exp)
+            if v.trait is None or not v.originals:
+                continue
+            o = v.originals[0]
+            tms = trait_methods(crate, v.trait)
+            before = len(rep.findings)
+            if tms:
+                compare_sig(rep, "matrix %s" % "/".join(key), exp, o, tms[0], v.deps_kind(o), v.deps_param(o))
+            check_fnmod_delegation(rep, crate, exp, "plain")
+            for f in rep.findings[before:]:
+                if not f.key.startswith("matrix "):
+                    f.key = "matrix %s %s" % ("/".join(key), f.key.split(" :: ")[-1])
+
+
 def run(tier):
     rep = Report("C03", tier, "translation_validation")
+    run_matrix(rep, tier)
     configs = ["plain", "unimock_test"] if tier == "quick" else ["plain", "test", "unimock", "unimock_test"]
     programs = 0
     loaded = [(cfg, load(rep, "pos", cfg)) for cfg in configs]
@@ -90,8 +220,9 @@ def run(tier):
     # R-PRED findings about deps bounds belong to C04; keep only the lifted-predicate findings here
     rep.findings = [f for f in rep.findings if not (f.rule == "R-PRED")]
     rep.floor("signatures_compared", 200)
+    rep.floor("matrix_signatures", 150 if tier == "quick" else 900)
     rep.coverage.update({"programs": programs, "disagreements_checked": rep.counters.get("signatures_compared", 0),
-                         "explanation": "bounded matrix. (1) every witness module compiles, including borrow checking (c03_matrix: deps as named generic / impl Trait / concrete / none, by-ref / by-value, 0-3 further parameters, type/lifetime/const generics with inline and where bounds, sync/async, unsafe / extern \"C\", returns borrowing from deps / an argument / neither), each with a type-identity witness that coerces the function and the trait method to one explicitly written `for<'a,..> fn(..) -> ..` pointer type (async: both futures unify with one Output); (2) over every fn/mod expansion of the corpus: fn_sig of the trait method == fn_sig of the original with the deps parameter replaced by the receiver (input and output types as resolved by rustc, number of late-bound lifetimes, unsafe/ABI); (3) each non-deps type/const generic parameter is on the trait xor on the method; lifted where-predicates are on the impl or on the method.",
+                         "explanation": "bounded matrix. (0) script-enumerated cross product {deps: named generic by ref / by value / inline bound / where bound / impl Trait / concrete / no_deps} x {0..3 further parameters incl. &str, &mut Vec, String} x {no generics, type generic inline / where, lifetime generic, const generic} x {unit / owned / borrowed return} x {plain, async, unsafe, pub(crate)} (quick: every 6th of the full product): each must compile and satisfy the signature rule and R-DELEG; (1) every witness module compiles, including borrow checking (c03_matrix: deps as named generic / impl Trait / concrete / none, by-ref / by-value, 0-3 further parameters, type/lifetime/const generics with inline and where bounds, sync/async, unsafe / extern \"C\", returns borrowing from deps / an argument / neither), each with a type-identity witness that coerces the function and the trait method to one explicitly written `for<'a,..> fn(..) -> ..` pointer type (async: both futures unify with one Output); (2) over every fn/mod expansion of the corpus: fn_sig of the trait method == fn_sig of the original with the deps parameter replaced by the receiver (input and output types as resolved by rustc, number of late-bound lifetimes, unsafe/ABI); (3) each non-deps type/const generic parameter is on the trait xor on the method; lifted where-predicates are on the impl or on the method.",
                          "configs": configs})
     rep.assumptions.append("totality over the whole signature grammar is not claimed: there is no decidable abstraction of `rustc accepts this`")
     return rep.finish()
